@@ -136,3 +136,13 @@ CHECKS['C06'] = dict(
          'overrides, assignments without coordinates / wrong coordinate count / undeclared names, executed in a real phase of a real '
          'Test and compared with a reference model: recorded value, outcome, marginal, per-assignment exceptions, phase error.',
     note='Validators limited to the listed codes; values limited to the listed set.')
+
+CHECKS['C10'] = dict(
+    engine='enum', level='model_checking', design_ref='DESIGN.md#c10',
+    technique='bounded-exhaustive operation histories (incl. reads of the live view) with a cached-vs-from-scratch differential oracle; strict JSON round trip',
+    text='All histories up to length 3 (4 in thorough) over 13 operations inside a real phase (scalar/transform/dimensioned sets and '
+         'overrides, attach, log, read of the live PhaseState/TestState view) -- at every read and at the end the incremental rendering '
+         'is compared with a from-scratch rendering of the public attributes; all C02-style programs with <=2 slots for the record '
+         'lists; attachments of equal name/size across repeated phase records; every value with <=2 constructors from the stated '
+         'family as scalar and dimensioned value: OutputToJSON must be strict JSON decoding to the rendering, attachments byte-exact.',
+    note='The station server itself (tornado) is not importable here; its data source TestState.as_base_types() is checked instead.')
